@@ -333,6 +333,7 @@ func init() {
 		ID:    "C14",
 		Level: "exploration",
 		Rule: "case = one real sidecar (service + proxy + targets manager) with one of 6 metric_relabel_configs programs whose per-sample outcome is known by construction, a scripted Prometheus head count, 2-5 targets spread over two jobs (one with the rule set, one without), and a seed-determined sequence of 4-24 operations (scrape with a generated payload of 0-200 samples - sometimes 3000-6000, i.e. several parser blocks - duplicates included, gzip or identity, through Proxy.ServeHTTP; failing scrapes of three kinds; re-assignments with new estimates; configuration reloads that change only the job's metric relabel rules); after every operation /targets/status/, /runtimeinfo/, /samples/?with_metrics_detail=true (unfiltered and filtered by either job) and the in-process LastScrapeStatistics are compared with an arithmetic reference; runs from the -race binary; " +
+			"one scrape in five of an assigned target is held in the harness transport while the identical assignment is re-posted (normal binary only; the -race pass re-runs the first 600/6000 cases sequentially scheduled); " +
 			"non-trivial = at least two scrapes executed; distinct = (rule set, #targets, head value, operation trace hash)",
 		Assumptions: []string{
 			"expected kept/dropped outcome of each sample is evaluated by plain string predicates written next to each rule set, not by the relabel package",
